@@ -50,7 +50,7 @@ IN2_STEPS = [2, 4, 8, 16, 30]
 MACRO_THRESHOLDS = ["0", "0.005", "0.01", "0.02", "0.05", "0.1", "0.1", "0.2", "0.3", "0.5", "1"]
 MACRO_WAITS = [["0.3", "s"], ["0.5", "s"], ["0.75", "s"], ["1", "s"], ["1.5", "s"], ["0.01", "min"], ["0.02", "min"], ["0.0002", "h"],
                ["0.1", "s"], ["0.05", "s"]]
-ALARM_CONDS = [[">=", 1], ["=", 1], ["=", 2], [">", 1], [">=", 3]]
+ALARM_CONDS = [[">=", 1], ["=", 1], ["=", 2], [">", 1], [">=", 2]]
 
 
 def frac(s: str) -> Fraction:
@@ -100,7 +100,7 @@ def _body(draw, depth: int, n_max: int, st_base: list, in_block: bool, opts: dic
     if opts.get("watch"):
         kinds += ["watch"] * 3
     if opts.get("alarm"):
-        kinds += ["alarm"]
+        kinds += ["alarm"] * 3
     if opts.get("macro_name"):
         kinds += ["callmacro"] * (4 if in_block else 3)
     for _ in range(n):
@@ -131,6 +131,8 @@ def _body(draw, depth: int, n_max: int, st_base: list, in_block: bool, opts: dic
             op, val = draw(st.sampled_from(ALARM_CONDS))
             nd["cond"] = {"tag": "In2", "op": op, "val": val, "unit": None}
             nd["c"] = _repeat_body(draw, False)
+            if nd["c"][0]["k"] != "wait" and draw(st.integers(0, 2)) > 0:
+                nd["c"].insert(0, {"k": "wait", "t": None, "w": draw(st.sampled_from(MACRO_WAITS)), "d": 0.0})
         elif k == "watch":
             # interrupt body without thresholds, blocks, Base or End block: the clock of every main-thread line stays the one
             # of its lexical scope (see c03.py, signature late:interrupt-scope-shadows-program-scope)
